@@ -616,7 +616,7 @@ pub async fn arun_read_script(
                 let r = handle.seek(sf).await;
                 out.push(r.map(|p| (p, vec![])).map_err(|e| format!("{:?}", e.kind())));
             }
-            ROp::ReadToEnd => {
+            ROp::ReadToEnd(_) => {
                 let mut v = vec![];
                 let r = handle.read_to_end(&mut v).await;
                 out.push(r.map(|n| (n as u64, v)).map_err(|e| format!("{:?}", e.kind())));
